@@ -39,6 +39,9 @@ ASSUME_COMMON = [
 ]
 
 
+QUICK_TRIVIA = ["ws2", "cmn", "both", "bothn1", "cm", "cmb", "bothb"]
+
+
 def ref_ok(member) -> bool:
     f = member["features"]
     return "tag" not in f and "LETTER" not in f and "raw" not in f
@@ -46,14 +49,21 @@ def ref_ok(member) -> bool:
 
 def select_members(prop: str, tier: str, seed: int):
     if tier == "quick":
-        trivs = ["none", "ws2", "cmn", "both", "bothn1"]
+        # Quick: every (context, kind) pair without trivia, plus two of the seven trivia configurations per
+        # pair, rotated so that every (kind, configuration) and every (context, configuration) pair occurs
+        # several times (a pairwise covering of context x kind x trivia).  Thorough: the full product.
+        rot = QUICK_TRIVIA
+        n = len(rot)
+
+        def pick(ci, ki, triv):
+            if triv == "none":
+                return True
+            first = (ci + ki) % n
+            return rot.index(triv) in (first, (first + 1 + ki % (n - 1)) % n)
+
+        mem = family.family(["none"] + rot, pick=pick)
     else:
-        trivs = list(family.TRIVIA)
-    mem = family.family(trivs)
-    if tier == "quick":
-        # the two COMMENT-only configurations run in a third of the contexts in the quick tier
-        mem += family.family(["cm"], ctxs=["top", "seqL", "star", "alt1", "m@", "a!", "opt", "not"])
-        mem = [m for m in mem if m["triv"] != "cmn" or m["ctx"] in ("top", "seqL", "seqR", "star", "plus", "alt1", "alt2", "m@", "m!", "a!", "a=", "opt", "and")]
+        mem = family.family(list(family.TRIVIA))
     if prop in ("C05", "C01", "C07", "C06"):
         mem += family.stack_family()
     if tier == "thorough":
